@@ -17,6 +17,9 @@ if what in ('neutral', 'all'):
 if what in ('neutral2', 'all'):
     for d in sorted(os.listdir('/tmp/neutral2')):
         if os.path.exists('/tmp/neutral2/%s/patch.diff' % d): jobs.append(('neutral2', d, '/tmp/neutral2/%s' % d, d))
+if what in ('neutral3', 'all'):
+    for d in sorted(os.listdir('/tmp/neutral3')):
+        if os.path.exists('/tmp/neutral3/%s/patch.diff' % d): jobs.append(('neutral3', d, '/tmp/neutral3/%s' % d, d))
 if what in ('seeds', 'all'):
     for root, tag in (('/tmp/seeds', 'r1'), ('/tmp/seeds2', 'r2'), ('/tmp/seeds3', 'r3')):
         for d in sorted(os.listdir(root)):
